@@ -443,6 +443,46 @@ class C11(common.Prop):
                     c = pd["comps"][-1]["name"]
                 args = {"op": "index", "comp": c, "point": p}
             yield {"be": rng.choice(BACKENDS), "pose": pd, "args": args, "kind": "generic"}
+        # two steps: a selection that permutes / drops points inside the components, then a second by-name operation on the
+        # RESULT (a derived pose must answer by-name lookups like a fresh one)
+        for i in range(90 if quick else 6000):
+            pd = self.gen_generic_pose(rng)
+            names = [c["name"] for c in pd["comps"]]
+            if not names_unique(pd["comps"]) or not names:
+                continue
+            sel = list(names)
+            if rng.random() < 0.5:
+                rng.shuffle(sel)
+            pts, comps2 = {}, []
+            for nme in sel:
+                c = next(x for x in pd["comps"] if x["name"] == nme)
+                keep = list(c["points"])
+                if keep and rng.random() < 0.8:
+                    keep = rng.sample(keep, rng.randrange(1, len(keep) + 1))
+                    pts[nme] = keep
+                comps2.append({"name": nme, "format": c["format"], "points": keep, "limbs": [], "colors": []})
+            pre = {"op": "get", "sel": sel, "points": pts or None, "mal": "none"}
+            pd2 = {"comps": comps2, "shape": pd["shape"]}
+            r = rng.random()
+            if r < 0.5:
+                args = self.gen_get(rng, pd2)
+            elif r < 0.8:
+                args = self.gen_remove(rng, pd2)
+            else:
+                fl = flat_names(comps2)
+                if not fl:
+                    continue
+                c, p_ = rng.choice(fl)
+                args = {"op": "index", "comp": c, "point": p_}
+            yield {"be": rng.choice(BACKENDS), "pose": pd, "pre": [pre], "args": args, "kind": "generic-2step"}
+        for i in range(10 if quick else 300):
+            case = self.gen_shaped(rng, "openpose")
+            if case["be"] == "np" and case["kind"].endswith("/full"):
+                case["pre"] = [{"op": "hide_remove"}]
+                case["args"] = rng.choice([{"op": "hide"}, {"op": "wrists"}, {"op": "index", "comp": "pose_keypoints_2d", "point": "LWrist"},
+                                           {"op": "get", "sel": ["pose_keypoints_2d"], "points": {"pose_keypoints_2d": ["RWrist", "Nose", "LEye"]}, "mal": "none"}])
+                case["kind"] = "openpose/2step"
+            yield case
         for i in range(40 if quick else 1500):
             yield self.gen_shaped(rng, "openpose")
         for i in range(16 if quick else 400):
@@ -462,7 +502,7 @@ class C11(common.Prop):
             extra = a.get("mal", "none") + ("/pts" if a.get("points") is not None else "/nopts")
         elif a["op"] == "remove":
             extra = a.get("form", "list") + ("/none" if a.get("points") is None else ("/empty" if not a["points"] else "/pts"))
-        return (a["op"], case["be"], case.get("kind", "").split("/")[0], extra, "uniq" if names_unique(pd["comps"]) else "dupnames",
+        return (a["op"] + ("<-" + "+".join(x["op"] for x in case["pre"]) if case.get("pre") else ""), case["be"], case.get("kind", "").split("/")[0], extra, "uniq" if names_unique(pd["comps"]) else "dupnames",
                 "F%dP%d" % (min(pd["shape"][0], 2), min(pd["shape"][1], 2)))
 
     def nontrivial(self, case):
@@ -493,6 +533,13 @@ class C11(common.Prop):
     def run_impl(self, case):
         a = case["args"]
         pose = self.impl.build(case["pose"], case["be"])
+        for pre in case.get("pre") or []:
+            # earlier steps of a multi-step case; the step under test starts from their result
+            try:
+                nxt = self.call(pose, pre)
+                pose = nxt if nxt is not None else pose
+            except Exception:
+                break
         before = self.impl.dump(pose)
         case["_before"] = before
         if a["op"] == "index":
